@@ -24,6 +24,8 @@ func init() {
 			"both keys derive from all their documented components; sharing is dominated by the query-only eligibility tests; every wait on a shared record can also leave through the participant's own context; " +
 			"and (context provenance) whether a follower can return the leader's cancellation verbatim. It does not decide byte equality of what participants receive.",
 		Mutants: []Mutant{
+			{Name: "failed subgraph loads stay in the in-flight table (seeded change C07-13)", File: "v2/pkg/engine/resolve/subgraph_request_singleflight.go", Rule: "C11-R2", Key: "SubgraphRequestSingleFlight.Finish/removed-before-close",
+				Old: "\tshard.items.Delete(item.SFKey)\n\tclose(item.loaded)\n", New: "\tif len(item.response) == 0 {\n\t\tclose(item.loaded)\n\t\treturn\n\t}\n\tshard.items.Delete(item.SFKey)\n\tclose(item.loaded)\n"},
 			{Name: "early return before FinishErr on the authorization error edge", File: resolveGo, Rule: "C11-R1", Key: "ArenaResolveGraphQLResponse",
 				Old: "\t\tif err = authorization.authorizePreFetch(response); err != nil {\n\t\t\tr.inboundRequestSingleFlight.FinishErr(inflight, err)\n",
 				New: "\t\tif err = authorization.authorizePreFetch(response); err != nil {\n"},
@@ -197,6 +199,7 @@ func runC11(r *fw.Run) {
 		in.Run(nil)
 		r.Expect("C11-R2", "close("+cs.chanF+") in "+cs.fn, nClose, 1)
 	}
+	checkRemovedBeforeClose(r, "C11-R2", true)
 	// follower side of the atomicity: LoadOrStore and AddFollower in one critical section
 	if fi := p.Func("resolve", "InboundRequestSingleFlight.GetOrCreate"); fi == nil {
 		r.Error("C11-R2: GetOrCreate not found")
@@ -300,7 +303,9 @@ func runC11(r *fw.Run) {
 			case "SharedData":
 				nIW++
 				// must be followed by FinishOk in the same function (checked by order: a FinishOk call after it on all paths)
-				ok := mustFollow(fi, n, func(c *ast.CallExpr) bool { return fw.CallIs(info, c, "resolve", "InboundRequestSingleFlight.FinishOk") })
+				ok := mustFollow(fi, n, func(c *ast.CallExpr) bool {
+					return fw.CallIs(info, c, "resolve", "InboundRequestSingleFlight.FinishOk")
+				})
 				r.Check(ok, "C11-R3", fi.Name()+"/inflight-write:SharedData", p.Pos(t.Pos()), "InflightRequest.SharedData is set before FinishOk on every path",
 					"SharedData is written on a path where FinishOk (the close of Done) does not follow, i.e. possibly after followers were woken")
 			}
@@ -398,7 +403,9 @@ func runC11(r *fw.Run) {
 			return fn != nil && fn.Pkg() != nil && fn.Pkg().Path() == "sync" && fw.FuncName(fn) == "Map.LoadOrStore"
 		}
 		ok, n := componentOnEveryPath(fi, isLoadOrStore,
-			func(a fw.CondAtom) bool { return a.Kind == "Nil" && fw.IsFieldSel(info, a.X, "resolve", "Context", "SubgraphHeadersBuilder") },
+			func(a fw.CondAtom) bool {
+				return a.Kind == "Nil" && fw.IsFieldSel(info, a.X, "resolve", "Context", "SubgraphHeadersBuilder")
+			},
 			func(nd ast.Node) bool {
 				as, isAs := nd.(*ast.AssignStmt)
 				return isAs && len(as.Rhs) == 1 && mentionsCall(info, as.Rhs[0], "resolve", "SubgraphHeadersBuilder.HashAll")
@@ -849,7 +856,6 @@ func itoa(n int) string {
 	return s
 }
 
-
 // mustFollow: on every path from node `from` to an exit of fi a call satisfying pred occurs.
 func mustFollow(fi *fw.FuncInfo, from ast.Node, pred func(*ast.CallExpr) bool) bool {
 	ok := true
@@ -960,4 +966,49 @@ func sharedWorkDetached(p *fw.Prog, which string) bool {
 		return det
 	}
 	return false
+}
+
+// checkRemovedBeforeClose: the entry leaves the in-flight table before the wake-up, on every path (added after a seeded
+// change: Finish returned early for failed loads without Delete — every later identical request became the follower of a
+// finished item). inbound=false restricts the rule to the subgraph single flight (C07: a failed fetch must not poison later requests).
+func checkRemovedBeforeClose(r *fw.Run, rule string, inbound bool) {
+	p := r.Prog
+	info := p.Pkg("resolve").TypesInfo
+	specs := []struct{ fn, chanT, chanF string }{
+		{"SubgraphRequestSingleFlight.Finish", "SingleFlightItem", "loaded"},
+	}
+	if inbound {
+		specs = append(specs, struct{ fn, chanT, chanF string }{"InboundRequestSingleFlight.FinishErr", "InflightRequest", "Done"},
+			struct{ fn, chanT, chanF string }{"InboundRequestSingleFlight.FinishOk", "InflightRequest", "Done"})
+	}
+	for _, cs := range specs {
+		fi := p.Func("resolve", cs.fn)
+		if fi == nil {
+			r.Error("%s: %s not found", rule, cs.fn)
+			continue
+		}
+		nClose := 0
+		in := fw.NewInterp(fi)
+		in.H = fw.Hooks{
+			Node: func(n ast.Node, st *fw.State) {
+				c, ok := n.(*ast.CallExpr)
+				if !ok {
+					return
+				}
+				if fn := fw.Callee(info, c); fn != nil && fn.Pkg() != nil && fn.Pkg().Path() == "sync" && (fw.FuncName(fn) == "Map.Delete" || fw.FuncName(fn) == "Map.LoadAndDelete" || fw.FuncName(fn) == "Map.CompareAndDelete") {
+					st.Set("removed")
+				}
+				if fw.Builtin(info, c) == "delete" {
+					st.Set("removed")
+				}
+				if fw.Builtin(info, c) == "close" && len(c.Args) == 1 && fw.IsFieldSel(info, c.Args[0], "resolve", cs.chanT, cs.chanF) && in.Final() {
+					nClose++
+					r.Check(st.Must("removed"), rule, fi.Name()+"/removed-before-close", p.Pos(c.Pos()), "the in-flight entry is removed from the table before close("+cs.chanF+") on every path of "+fi.Name(),
+						"the wake-up channel is closed on a path that left the finished entry in the in-flight table: every later identical request finds it, becomes a follower of work that is already over, and gets the old result (for a failed leader: the old error, and the subgraph is never asked again)")
+				}
+			},
+		}
+		in.Run(nil)
+		r.Expect(rule, "close("+cs.chanF+") in "+cs.fn+" (removal)", nClose, 1)
+	}
 }
